@@ -548,3 +548,78 @@ def c07_inplace_activation_history(ctx, normalize2mom, second_moment):
                 ctx.violation("normalize2mom/constant-depends-on-earlier-calls", {"history": hist + [f"normalize2mom({lname})"], "second_moment_by_quadrature": m2,
                               "expected": 1.0, "tolerance": 5e-3}, True)
                 return
+
+
+
+def c14_restore_matrix(ctx, e3nn, ejit):
+    """disable_e3nn_codegen / prepare restore jit_script_fx to its value on entry for every entry value, whatever the body does to the
+    option (leaves it, sets it True, sets it False), on normal and exceptional exit, plain and nested"""
+    class Boom(Exception):
+        pass
+
+    saved = e3nn.get_optimization_defaults()
+    try:
+        for init in (True, False):
+            for body in (None, True, False):
+                for raises in (False, True):
+                    for how in ("with", "nested-with", "prepare"):
+                        e3nn.set_optimization_defaults(jit_script_fx=init)
+                        inside = []
+
+                        def work():
+                            inside.append(e3nn.get_optimization_defaults()["jit_script_fx"])
+                            if body is not None:
+                                e3nn.set_optimization_defaults(jit_script_fx=body)
+                            if raises:
+                                raise Boom()
+                        try:
+                            if how == "with":
+                                with ejit.disable_e3nn_codegen():
+                                    work()
+                            elif how == "nested-with":
+                                with ejit.disable_e3nn_codegen():
+                                    with ejit.disable_e3nn_codegen():
+                                        work()
+                                    inside.append(("after-inner", e3nn.get_optimization_defaults()["jit_script_fx"]))
+                            else:
+                                def factory():
+                                    work()
+                                    return torch.nn.Identity()
+                                ejit.prepare(factory)()
+                        except Boom:
+                            pass
+                        after = e3nn.get_optimization_defaults()["jit_script_fx"]
+                        ctx.case(f"restore-matrix init={init} body-sets={body} raises={raises} {how}", nontrivial=True, sample_every=6)
+                        ctx.traces += 1
+                        bad = None
+                        if after != init:
+                            bad = f"jit_script_fx is {after} after the block, it was {init} on entry"
+                        elif inside and inside[0] is not False:
+                            bad = "the body ran with jit_script_fx still enabled"
+                        elif how == "nested-with" and not raises and len(inside) > 1 and inside[1][1] is not False:
+                            bad = "leaving the inner block did not restore the outer block's value (False)"
+                        if bad:
+                            ctx.violation("disable_e3nn_codegen/restores-wrong-value", {"history": [f"set_optimization_defaults(jit_script_fx={init})", f"enter ({how})",
+                                          f"body: set jit_script_fx={body}" if body is not None else "body: leaves the option alone", "raise" if raises else "normal exit"],
+                                          "what": bad, "observed_inside": [str(x) for x in inside]}, True)
+                            return
+    finally:
+        e3nn.set_optimization_defaults(**saved)
+
+
+def c03_half_turn_quaternions(ctx, o3):
+    """D_from_quaternion at quaternions whose real part is EXACTLY 0 (half turns) equals D_from_axis_angle(axis, pi)"""
+    qs = torch.tensor([[0.0, 1.0, 0.0, 0.0], [0.0, 0.0, 1.0, 0.0], [0.0, 0.0, 0.0, 1.0], [0.0, 0.6, 0.8, 0.0], [0.0, 0.6, 0.0, -0.8],
+                       [0.0, 2 / 3, -1 / 3, 2 / 3]], dtype=torch.float64)
+    ang = torch.full((qs.shape[0],), 3.141592653589793, dtype=torch.float64)
+    for irs in ["1o", "1e+2e", "0o+3o"]:
+        I = o3.Irreps(irs)
+        a = I.D_from_quaternion(qs)
+        b = I.D_from_axis_angle(qs[:, 1:], ang)
+        dev = (a - b).abs().max().item()
+        ctx.case(f"half-turn quaternions {irs}", nontrivial=True)
+        ctx.traces += 1
+        if not dev <= 1e-8:
+            i = int((a - b).abs().flatten(1).max(1).values.argmax())
+            ctx.violation("Irreps.D_from_quaternion/half-turn", {"irreps": irs, "quaternion": qs[i].tolist(), "max_dev_from_D_from_axis_angle(axis,pi)": dev}, True)
+            return
